@@ -6,6 +6,7 @@ import (
 	"errors"
 	"fmt"
 	"io"
+	"math/rand"
 	"net"
 	"os"
 	"strings"
@@ -17,13 +18,14 @@ import (
 func init() { runners["C18"] = runC18 }
 
 type c18Case struct {
-	Kind    string `json:"kind"` // stream | eof | wrong-type | deadline-idle | deadline-active | deadline-write-idle | pair
-	Client  bool   `json:"client"`
-	MsgType int    `json:"msg_type"`
-	Writes  []int  `json:"write_sizes"`
-	Reads   []int  `json:"read_buf_sizes"`
-	Code    int    `json:"close_code"`
-	Seed    int64  `json:"seed"`
+	Kind    string   `json:"kind"` // stream | eof | wrong-type | deadline-idle | deadline-active | deadline-write-idle | pair
+	Client  bool     `json:"client"`
+	MsgType int      `json:"msg_type"`
+	Writes  []int    `json:"write_sizes"`
+	Reads   []int    `json:"read_buf_sizes"`
+	Code    int      `json:"close_code"`
+	Seed    int64    `json:"seed"`
+	Prog    []string `json:"deadline_program,omitempty"` // <k><side>: k in z f p c b, side in r w x(both; not for c, b)
 }
 
 func isDeadlineErr(err error) bool {
@@ -194,6 +196,195 @@ func runC18Case(cc c18Case, modelLine *string, modelWant *string) (string, strin
 		if werr := c.Write(wctx, websocket.MessageText, []byte("x")); werr == nil {
 			return "active-deadline-connection-open", desc + ": the connection is still open after a deadline fired during a call"
 		}
+	case "deadline-past-during-read", "deadline-past-during-write":
+		// a deadline that is already in the past, set while a call is blocked inside the connection:
+		// it "fires during an active call", so that call must fail and the connection must be closed
+		done := make(chan error, 1)
+		if cc.Kind == "deadline-past-during-read" {
+			go func() { _, err := nc.Read(make([]byte, 8)); done <- err }() // nothing arrives
+		} else {
+			a.blockWrites = true // a peer that never reads: the transport write blocks
+			go func() { _, err := nc.Write(make([]byte, 1<<16)); done <- err }()
+		}
+		time.Sleep(60 * time.Millisecond) // let the call block
+		select {
+		case err := <-done:
+			return "blocked-call-returned-early", fmt.Sprintf("%s: %v", desc, err)
+		default:
+		}
+		past := time.Now().Add(-time.Duration(1+cc.Seed%3) * time.Second)
+		if cc.Kind == "deadline-past-during-read" {
+			nc.SetReadDeadline(past)
+		} else if cc.Seed%2 == 0 {
+			nc.SetWriteDeadline(past)
+		} else {
+			nc.SetDeadline(past)
+		}
+		select {
+		case err := <-done:
+			if err == nil {
+				return "active-deadline-no-error", desc + ": the blocked call succeeded after a past deadline was set during it"
+			}
+		case <-time.After(3 * time.Second):
+			return "active-deadline-no-error", desc + ": the blocked call did not fail within 3s of a past deadline being set during it"
+		}
+		time.Sleep(20 * time.Millisecond)
+		a.blockWrites = false
+		wctx, wc := context.WithTimeout(bg, time.Second)
+		defer wc()
+		if werr := c.Write(wctx, websocket.MessageText, []byte("x")); werr == nil {
+			return "active-deadline-connection-open", desc + ": the connection is still open after a deadline fired during a call"
+		}
+	case "deadline-program":
+		// a program of deadline settings (zero / future / past) and calls on both directions, with deadlines
+		// set before, between and during calls. Ground truth by construction: expired flags + closed.
+		exp := map[byte]bool{'r': false, 'w': false}
+		closed := false
+		pendingR := 0
+		var evs, results []string
+		past := func() time.Time { return time.Now().Add(-time.Duration(1+rng.Intn(5000)) * time.Millisecond) }
+		setDL := func(sd byte, t time.Time) {
+			switch sd {
+			case 'r':
+				nc.SetReadDeadline(t)
+			case 'w':
+				nc.SetWriteDeadline(t)
+			default:
+				nc.SetDeadline(t)
+			}
+		}
+		class := func(err error) string {
+			if err == nil {
+				return "ok"
+			}
+			if isDeadlineErr(err) {
+				return "dl"
+			}
+			return "fail"
+		}
+		want := func(sd byte) string {
+			if exp[sd] {
+				return "dl"
+			}
+			if closed {
+				return "fail"
+			}
+			return "ok"
+		}
+		start := func(sd byte, blocked bool) chan error {
+			done := make(chan error, 1)
+			if sd == 'r' {
+				if !blocked && pendingR == 0 {
+					peer.writeFrame(RawFrame{Fin: true, Op: cc.MsgType, Payload: []byte("m")})
+					pendingR++
+				}
+				go func() { _, err := nc.Read(make([]byte, 8)); done <- err }()
+			} else {
+				n := 1
+				if blocked {
+					a.blockWrites = true
+					n = 1 << 16
+				}
+				go func() { _, err := nc.Write(make([]byte, n)); done <- err }()
+			}
+			return done
+		}
+		for _, ev := range cc.Prog {
+			k, sd := ev[0], ev[1]
+			sides := []byte{sd}
+			if sd == 'x' {
+				sides = []byte{'r', 'w'}
+			}
+			switch k {
+			case 'z', 'f', 'p':
+				t := time.Time{}
+				if k == 'f' {
+					t = time.Now().Add(time.Hour)
+				} else if k == 'p' {
+					t = past()
+				}
+				setDL(sd, t)
+				for _, x := range sides {
+					exp[x] = k == 'p'
+					evs = append(evs, string([]byte{k, x}))
+				}
+				if k == 'p' {
+					time.Sleep(40 * time.Millisecond) // the 1ns timer fires
+				}
+			case 'c':
+				w := want(sd)
+				done := start(sd, false)
+				var got string
+				select {
+				case err := <-done:
+					got = class(err)
+					if sd == 'r' && err == nil {
+						pendingR--
+					}
+				case <-time.After(3 * time.Second):
+					return "deadline-program-call-hangs", fmt.Sprintf("%s: event %s after %v", desc, ev, evs)
+				}
+				evs, results = append(evs, ev), append(results, got)
+				if got != w {
+					return "deadline-program:" + want2shape(w, got), fmt.Sprintf("%s: after %v a %c call returned %s, expected %s", desc, evs[:len(evs)-1], sd, got, w)
+				}
+			case 'b':
+				if sd == 'r' && pendingR > 0 {
+					continue // a message is waiting: the Read would not block
+				}
+				w := want(sd)
+				done := start(sd, true)
+				time.Sleep(60 * time.Millisecond)
+				got := ""
+				select {
+				case err := <-done:
+					got = class(err)
+				default:
+				}
+				if (got == "") != (w == "ok") {
+					a.blockWrites = false
+					return "deadline-program:" + want2shape(w, got+"(blocked-call)"), fmt.Sprintf("%s: after %v a blocked %c call: returned early=%q, expected %s", desc, evs, sd, got, w)
+				}
+				setDL(sd, past())
+				if got == "" { // the call is inside the connection: the past deadline fires during it
+					select {
+					case err := <-done:
+						if err == nil {
+							a.blockWrites = false
+							return "active-deadline-no-error", fmt.Sprintf("%s: after %v the blocked %c call succeeded although a past deadline was set during it", desc, evs, sd)
+						}
+						got = "fail"
+					case <-time.After(3 * time.Second):
+						a.blockWrites = false
+						return "active-deadline-no-error", fmt.Sprintf("%s: after %v the blocked %c call did not fail within 3s of a past deadline set during it", desc, evs, sd)
+					}
+					closed = true
+				} else {
+					exp[sd] = true
+				}
+				time.Sleep(40 * time.Millisecond)
+				a.blockWrites = false
+				evs, results = append(evs, ev), append(results, got)
+			}
+		}
+		wctx, wc := context.WithTimeout(bg, time.Second)
+		defer wc()
+		isClosed := c.Write(wctx, websocket.MessageText, []byte("x")) != nil
+		if isClosed != closed {
+			sh := "idle-deadline-broke-connection"
+			if closed {
+				sh = "active-deadline-connection-open"
+			}
+			return sh, fmt.Sprintf("%s: after %v the connection is closed=%v, expected %v", desc, evs, isClosed, closed)
+		}
+		if len(evs) > 0 {
+			*modelLine = "deadline " + strings.Join(evs, ",")
+			cl := "0"
+			if closed {
+				cl = "1"
+			}
+			*modelWant = "ok " + strings.Join(results, ",") + " " + cl
+		}
 	case "pair":
 		// two library endpoints through the adapter: concatenation of writes == concatenation of reads
 		a2, b2 := newPipe()
@@ -234,6 +425,22 @@ func runC18Case(cc c18Case, modelLine *string, modelWant *string) (string, strin
 	return "", ""
 }
 
+func want2shape(want, got string) string { return "got-" + got + "-want-" + want }
+
+func genDeadlineProg(rng *rand.Rand) []string {
+	n := 3 + rng.Intn(10)
+	var p []string
+	for i := 0; i < n; i++ {
+		k := "zfpppccccb"[rng.Intn(10)]
+		sd := "rwx"[rng.Intn(3)]
+		if (k == 'c' || k == 'b') && sd == 'x' {
+			sd = "rw"[rng.Intn(2)]
+		}
+		p = append(p, string([]byte{k, sd}))
+	}
+	return p
+}
+
 func firstDiff(a, b []byte) int {
 	for i := 0; i < len(a) && i < len(b); i++ {
 		if a[i] != b[i] {
@@ -249,7 +456,7 @@ func firstDiff(a, b []byte) int {
 func runC18(ctx *runCtx) {
 	rep := ctx.rep
 	rep.Rule = "sequences of write sizes (0..70000, empty messages, fragmented by the peer) x sequences of read-buffer sizes (1..70000), both message types, both roles, ended by peer Close codes {1000, 1001, others}: bytes read == bytes written, EOF mapping and stickiness, no (0, nil) reads, compared with the Lean NetConn model; " +
-		"wrong message type -> error + Close 1003 at the peer; deadlines in the past / future / zero while idle (calls fail with a deadline error until reset, connection stays usable) and firing during a call (call fails, connection closed); library-to-library pairs. distinct = case tuple"
+		"wrong message type -> error + Close 1003 at the peer; deadlines in the past / future / zero while idle (calls fail with a deadline error until reset, connection stays usable) and firing during a call, including a past deadline set while a Read / Write is blocked (call fails, connection closed); generated deadline programs (zero / future / past deadlines on either or both directions, before, between and during calls) against by-construction ground truth and the Lean deadline model; library-to-library pairs. distinct = case tuple"
 	if ctx.replay != "" {
 		var cc c18Case
 		if err := loadReplay(ctx.replay, &cc); err == nil && cc.Kind != "" {
@@ -304,9 +511,12 @@ func runC18(ctx *runCtx) {
 	for i := 0; i < n/5; i++ {
 		cases = append(cases, c18Case{Kind: "pair", MsgType: 1 + rng.Intn(2), Writes: sizes(), Reads: []int{64 + rng.Intn(5000)}, Seed: ctx.seed + int64(i)})
 	}
+	for i := 0; i < n/3; i++ {
+		cases = append(cases, c18Case{Kind: "deadline-program", Client: rng.Intn(2) == 0, MsgType: 1 + rng.Intn(2), Prog: genDeadlineProg(rng), Seed: ctx.seed + int64(i)})
+	}
 	for _, client := range []bool{true, false} {
 		for mt := 1; mt <= 2; mt++ {
-			for _, k := range []string{"wrong-type", "deadline-idle", "deadline-write-idle", "deadline-active"} {
+			for _, k := range []string{"wrong-type", "deadline-idle", "deadline-write-idle", "deadline-active", "deadline-past-during-read", "deadline-past-during-write"} {
 				cases = append(cases, c18Case{Kind: k, Client: client, MsgType: mt, Seed: ctx.seed})
 			}
 			cases = append(cases, c18Case{Kind: "stream", Client: client, MsgType: mt, Writes: nil, Reads: []int{8}, Code: 1000, Seed: ctx.seed})
@@ -349,7 +559,7 @@ func runC18(ctx *runCtx) {
 		if r.line != "" && len(r.line) < 600000 {
 			lines = append(lines, r.line)
 			expect = append(expect, r.want)
-			what = append(what, fmt.Sprintf("NetConn reads %+v", cc))
+			what = append(what, fmt.Sprintf("NetConn model %+v", cc))
 		}
 	}
 	askAndCompare(ctx, lines, expect, what, "netconn-model-vs-impl")
